@@ -1,1 +1,4 @@
 // hook file for statime-wire/src/messages/mod.rs: declares the per-property harness modules
+#[cfg(any(verif_all, verif_c41))]
+#[path = "/verif/harness/statime-wire/c41.rs"]
+mod c41;
